@@ -10,7 +10,7 @@ ID = 'C16'
 RULE = ('the same deterministic case file is executed by harness binaries compiled for {baseline, +sse4.1, +avx, +avx2, +sha+sse4.1}; every output must equal the specification model and be '
         'byte-identical across builds; SHA-224/256 one-shot at every input offset 0..31 x 0..20 blocks x tails {0,1,63}, contexts preloaded with prefixes of every length mod 64 '
         'then fed multi-block updates, BLAKE2b/2s keyed/unkeyed 0..5 blocks with every tail class, contexts embedded at offset 8 of a repr(C) struct inside a Vec, BLAKE2 byte counters preset next to 2^32/2^64/2^128 (hook), HMAC/PBKDF2/'
-        'scrypt/Argon2 samples, and the public ChaCha contexts (SSE2 engine) against the portable engine for every key/nonce length, single calls and whole histories (chunked processing, seek from any position, clone); memcheck and ASan run the +avx2 build; '
+        'scrypt/Argon2 samples, and the public ChaCha contexts (SSE2 engine) against the portable engine for every key/nonce length, single calls and whole histories (chunked processing, seek from any position, clone); a sample of the X25519 / Ed25519 / field / group workloads of C12-C15 on every build configuration; memcheck and ASan run the +avx2 build; '
         'distinct = (op family, variant, offset, block count, tail) per build')
 ASSUMPTIONS = ['host CPU executes SSE4.1/AVX/AVX2 (checked at run time; a configuration the CPU cannot run is reported, not judged)', 'spec models of C01-C11']
 FLOORS = {'evaluations': 12000, 'distinct': 3000}
@@ -72,6 +72,18 @@ def gen(tier, seed):
         yield 'scrypt %s %s %d %d %d %d #scrypt' % (rng.data(8), rng.data(8), rng.rng(1, 6), rng.rng(1, 8), rng.rng(1, 3), rng.rng(1, 130))
         lanes = rng.rng(1, 3)      # memory below 8 blocks per lane is silently raised by the crate (documented, outside the claim): never generated
         yield 'argon2 %s 0x13 %d %d %d %d %s %s - - at #argon2' % (rng.choice(['d', 'i', 'id']), rng.rng(1, 3), rng.rng(8 * lanes, 80), lanes, rng.choice([16, 32, 64, 100]), rng.data(12), rng.data(16))
+    # the curve code has no hand-written SIMD paths today, but its helpers (masked swaps, limb arrays) are compiled under the same
+    # target features: a sample of the X25519 / Ed25519 / field / group workloads runs on every build configuration too
+    from . import c12, c13, c14, c15
+    crng = Rng('C16-curve', seed)
+    for m_, keep in ((c12, 60), (c13, 30), (c14, 40), (c15, 120)):
+        # (lines that decode a point are left to C15 / C17, where the open known finding about Ge::from_bytes is accounted for)
+        ls = [l for l in m_.gen('quick', seed) if not l.startswith('x25519_iter') and not l.endswith('#fe-deep64')
+              and not (m_ is c15 and c15.uses_decoded(l.partition(' #')[0].split()))]
+        step = max(1, len(ls) // (keep * (3 if thorough else 1)))
+        off = crng.below(step)
+        for l in ls[off::step]:
+            yield l.partition(' #')[0] + ' #curve/' + l.split()[0]
     # ChaCha: public contexts (SSE2 engine) and the portable engine on identical inputs
     for rounds in (8, 12, 20):
         for kl in (16, 32):
